@@ -24,9 +24,11 @@ from ..translate import blocks, ir
 
 THEOREMS = ["twosum", "fast_twosum", "twosum_fix_overflow", "fast2sum_fix_overflow", "ties_add_2sum",
             "twosum_generated", "fast2sum_generated", "twosum_fix_generated", "fast2sum_fix_generated", "generated_wf",
-            "twosum_bit_exact", "twosum_bit_exact_any_format", "fast2sum_bit_exact_any_format", "soft_ops_correctly_rounded", "soft_div_correctly_rounded"]
-SEARCHED = ["Veltkamp splitter x = xh + xl and half-significand bit bounds (all variants, scale on/off)",
-            "Dekker product h + l = x*y (all variants)", "fix_overflow fallbacks", "float64/float32/float16 machine arithmetic = round-to-nearest (Soft vs NumPy)"]
+            "twosum_bit_exact", "twosum_bit_exact_any_format", "fast2sum_bit_exact_any_format", "soft_ops_correctly_rounded", "soft_div_correctly_rounded",
+            "veltkamp_split", "veltkamp_split_utils", "dekker_product", "dekker_product_utils", "split_constants", "ties_split_dekker",
+            "dekker_generated", "split_generated"]
+SEARCHED = ["Veltkamp splitter x = xh + xl and half-significand bit bounds (all variants, scale on/off; subnormal inputs)",
+            "Dekker product h + l = x*y (all variants; scale=True, fix_overflow, apmath two_prod/split, algorithms.py copies are search-only)", "fix_overflow fallbacks", "float64/float32/float16 machine arithmetic = round-to-nearest (Soft vs NumPy)"]
 TRUSTED = [
     "Lean 4 kernel; axioms propext, Classical.choice, Quot.sound only",
     "translator fav/translate/ir.py (repo tracer -> canonical IR), cross-checked bit-for-bit against eager execution of the real functions on every run",
@@ -37,10 +39,15 @@ LEVEL_TEXT = ("Proof for 2Sum and Fast2Sum (with and without fix_overflow): (1) 
               "representable x, y the regenerated programs (fpa.add_2sum every option combination, the algorithms.py and utils.py copies, float16/32/64; tied by kernel-checked "
               "node-for-node equality to the specification programs) return (RN(x+y), x+y-RN(x+y)) exactly (Fast2Sum under |x|>=|y|); (2) bit-exact: the softfloat "
               "add/sub/mul are proved correctly rounded (value = rne(exact), rne proved to be a round-to-nearest), so the same exactness holds for the BIT-PATTERN evaluation "
-              "of the traced program for all finite operands whenever no intermediate operation overflows. Splitter and Dekker clauses, their copies and all option "
-              "combinations are decided by exact-rational search on the real functions (partial: not theorems).")
+              "of the traced program for all finite operands whenever no intermediate operation overflows. "
+              "Proof for Veltkamp's splitter and Dekker's product: for every precision p, every emin, any round-to-nearest and every NORMAL operand, absent overflow, "
+              "the regenerated fpa.split_veltkamp / utils.split_veltkamp (C = 2^s+1, any 1<=s<p) return xh + xl = x exactly with xh on the grid 2^(e+s) (p-s bits) and "
+              "|xl| <= 2^(s-1) ulp (s-1 bits and a sign); fpa.mul_dekker(scale=False), utils.multiply_dekker, utils.square_dekker (p <= 2s <= p+2, s+2 <= p; the "
+              "constants of float16/32/64 are checked to be 2^ceil(p/2)+1) return h = RN(x*y) and h + l = x*y exactly when the product's error term cannot underflow — "
+              "every partial product and partial sum is shown representable. The scale=True and fix_overflow variants, the apmath and algorithms.py copies (they carry "
+              "non-finite constants and selects) and subnormal operands are decided by exact-rational search on the real functions.")
 LEVEL_NOTE = ("Overflow excluded by hypothesis as the property words it. Softfloat == machine arithmetic is validated by a 3-way bit-level cross-check each run "
-              "(and its add/sub/mul are proved correctly rounded). Splitter/Dekker: search only.")
+              "(and its add/sub/mul/div are proved correctly rounded). Splitter/Dekker: theorems for the unscaled variants on normal operands; scaled/fix_overflow/apmath variants and subnormals by search.")
 TECHNIQUE = "Lean 4 proof (Flocq-style FP theory over Q) on translator-regenerated DAGs + bit-level 3-way correspondence + exact-rational search"
 
 FMTS = ["float16", "float32", "float64"]
